@@ -3,6 +3,9 @@ import Mathlib.Data.Matrix.Basic
 import Mathlib.Tactic.Ring
 import Mathlib.Tactic.FieldSimp
 import Mathlib.Algebra.BigOperators.Fin
+import Mathlib.Data.Rat.Defs
+import Mathlib.Algebra.Order.Field.Rat
+import Mathlib.Tactic.Push
 namespace NgVerif.Transform
 
 variable {K : Type} [Field K]
@@ -20,5 +23,89 @@ theorem half_voxel (A : Fin 3 → Fin 3 → K) (t v i : Fin 3 → K) (c : K)
   have h0 := hv 0; have h1 := hv 1; have h2 := hv 2
   field_simp
   ring
+
+/-- the same identity for the EXECUTABLE row model `rowG` (the definition the driver runs), over any
+    field: the four entries `[R₀, R₁, R₂, t']` of row `r` map the corner-based coordinate of the centre
+    of voxel `i` to `10^6 · (A·i + t)` -/
+theorem rowG_maps_centre (a : Nat → Nat → K) (t v : Nat → K) (i : Nat → K) (c : K)
+    (h0 : v 0 ≠ 0) (h1 : v 1 ≠ 0) (h2 : v 2 ≠ 0) (r : Nat) :
+    ∃ R0 R1 R2 t', rowG a t v (c / 2) c 0 r = [R0, R1, R2, t'] ∧
+      R0 * ((i 0 + 1/2) * (c * v 0)) + R1 * ((i 1 + 1/2) * (c * v 1)) + R2 * ((i 2 + 1/2) * (c * v 2)) + t'
+        = c * (a r 0 * i 0 + a r 1 * i 1 + a r 2 * i 2 + t r) := by
+  refine ⟨_, _, _, _, rfl, ?_⟩
+  field_simp
+  ring
+
+/-! ### the driver's rational arithmetic `Q` is arithmetic in ℚ -/
+
+/-- value of a `Q` in ℚ -/
+def Q.val (q : Q) : ℚ := (q.n : ℚ) / (q.d : ℚ)
+
+theorem Q.val_add (a b : Q) (ha : a.d ≠ 0) (hb : b.d ≠ 0) : (a + b).val = a.val + b.val := by
+  show (Q.add a b).val = _
+  simp only [Q.add, Q.val]; push_cast
+  have : (a.d : ℚ) ≠ 0 := by exact_mod_cast ha
+  have : (b.d : ℚ) ≠ 0 := by exact_mod_cast hb
+  field_simp
+
+theorem Q.val_sub (a b : Q) (ha : a.d ≠ 0) (hb : b.d ≠ 0) : (a - b).val = a.val - b.val := by
+  show (Q.sub a b).val = _
+  simp only [Q.sub, Q.val]; push_cast
+  have : (a.d : ℚ) ≠ 0 := by exact_mod_cast ha
+  have : (b.d : ℚ) ≠ 0 := by exact_mod_cast hb
+  field_simp
+
+theorem Q.val_mul (a b : Q) : (a * b).val = a.val * b.val := by
+  show (Q.mul a b).val = _
+  simp only [Q.mul, Q.val]; push_cast
+  rw [div_mul_div_comm]
+
+/-- division by a POSITIVE rational (voxel sizes are positive) -/
+theorem Q.val_div (a b : Q) (hb : 0 < b.n) : (a / b).val = a.val / b.val := by
+  show (Q.div a b).val = _
+  simp only [Q.div, Q.val]; push_cast
+  have hn : ((b.n.toNat : ℤ) : ℚ) = (b.n : ℚ) := by
+    have : (b.n.toNat : ℤ) = b.n := Int.toNat_of_nonneg (le_of_lt hb)
+    exact_mod_cast this
+  rw [show ((b.n.toNat : ℕ) : ℚ) = (b.n : ℚ) from by exact_mod_cast hn]
+  rw [div_div_div_eq]
+
+theorem Q.ok_add (a b : Q) (ha : a.d ≠ 0) (hb : b.d ≠ 0) : (a + b).d ≠ 0 := by
+  show (Q.add a b).d ≠ 0
+  simp only [Q.add]; exact Nat.mul_ne_zero ha hb
+
+theorem Q.ok_sub (a b : Q) (ha : a.d ≠ 0) (hb : b.d ≠ 0) : (a - b).d ≠ 0 := by
+  show (Q.sub a b).d ≠ 0
+  simp only [Q.sub]; exact Nat.mul_ne_zero ha hb
+
+theorem Q.ok_mul (a b : Q) (ha : a.d ≠ 0) (hb : b.d ≠ 0) : (a * b).d ≠ 0 := by
+  show (Q.mul a b).d ≠ 0
+  simp only [Q.mul]; exact Nat.mul_ne_zero ha hb
+
+theorem Q.ok_div (a b : Q) (ha : a.d ≠ 0) (hb : 0 < b.n) : (a / b).d ≠ 0 := by
+  show (Q.div a b).d ≠ 0
+  simp only [Q.div]
+  refine Nat.mul_ne_zero ha ?_
+  intro h
+  have := Int.toNat_eq_zero.mp h
+  omega
+
+/-- the row computed by the driver in `Q` arithmetic, read in ℚ, is the row computed in ℚ: the
+    model's hand-rolled rational arithmetic does not change the formula -/
+theorem rowG_val (a : Nat → Nat → Q) (t v : Nat → Q) (half million zero : Q) (r : Nat)
+    (ha : ∀ r c, (a r c).d ≠ 0) (ht : ∀ r, (t r).d ≠ 0) (hv : ∀ c, (v c).d ≠ 0 ∧ 0 < (v c).n)
+    (hh : half.d ≠ 0) (hm : million.d ≠ 0) (hz : zero.d ≠ 0) :
+    (rowG a t v half million zero r).map Q.val =
+      rowG (fun r c => (a r c).val) (fun r => (t r).val) (fun c => (v c).val) half.val million.val zero.val r := by
+  have dR : ∀ c, (a r c / v c).d ≠ 0 := fun c => Q.ok_div _ _ (ha r c) (hv c).2
+  have dH : ∀ c, (half * v c).d ≠ 0 := fun c => Q.ok_mul _ _ hh (hv c).1
+  have dP : ∀ c, (a r c / v c * (half * v c)).d ≠ 0 := fun c => Q.ok_mul _ _ (dR c) (dH c)
+  have d0 := Q.ok_add _ _ hz (dP 0)
+  have d1 := Q.ok_add _ _ d0 (dP 1)
+  have d2 := Q.ok_add _ _ d1 (dP 2)
+  have dM := Q.ok_mul _ _ hm (ht r)
+  simp only [rowG, List.map_cons, List.map_nil]
+  rw [Q.val_sub _ _ dM d2, Q.val_add _ _ d1 (dP 2), Q.val_add _ _ d0 (dP 1), Q.val_add _ _ hz (dP 0)]
+  simp only [Q.val_mul, Q.val_div _ _ (hv 0).2, Q.val_div _ _ (hv 1).2, Q.val_div _ _ (hv 2).2]
 
 end NgVerif.Transform
